@@ -164,6 +164,15 @@ static void paint(const char *kind, uint64_t seed, int x0, int y0, int w, int h,
         setpx(x0 + x, y0 + y, v | TOP);
       }
     }
+  } else if (!strcmp(kind, "flat16")) {       /* every 16x16 block (aligned to x0,y0) flat, all blocks different;
+                                                 the first ones are pure red, green, blue, black, white: the
+                                                 content for the derived JPEG bound and the channel order */
+    int nbx = (w + 15) / 16;
+    if (sb == 4) { pal[0] = 0x0000FF; pal[1] = 0x00FF00; pal[2] = 0xFF0000; pal[3] = 0; pal[4] = 0xFFFFFF; }
+    else if (sb == 2) { pal[0] = 0x001F; pal[1] = 0x03E0; pal[2] = 0x7C00; pal[3] = 0; pal[4] = 0x7FFF; }
+    for (i = 5; i < 256; i++) { int j, again = 1; while (again) { again = 0; for (j = 0; j < i; j++) if (pal[j] == pal[i]) { pal[i] = (uint32_t)vh_rand() & m; again = 1; } } }
+    for (y = 0; y < h; y++) for (x = 0; x < w; x++)
+      setpx(x0 + x, y0 + y, pal[((y / 16) * nbx + (x / 16)) % 256] | TOP);
   } else if (!strcmp(kind, "outlier")) {      /* flat with a few single pixels */
     int k, nb = (int)((b >> 4) > 0 ? (b >> 4) : 3);
     for (y = 0; y < h; y++) for (x = 0; x < w; x++) setpx(x0 + x, y0 + y, pal[0] | TOP);
@@ -208,6 +217,8 @@ static void op_unjpeg(const char *hex) {
   jpeg_mem_src(&ci, in, (unsigned long)n);
   jpeg_read_header(&ci, TRUE);
   ci.out_color_space = JCS_RGB;
+  ci.do_fancy_upsampling = FALSE;   /* plain replication of sub-sampled chroma: a flat MCU stays flat */
+  ci.dct_method = JDCT_ISLOW;
   jpeg_start_decompress(&ci);
   out = (unsigned char *)malloc((size_t)ci.output_width * ci.output_height * 3 + 1);
   while (ci.output_scanline < ci.output_height) {
